@@ -707,18 +707,19 @@ func (g *gen) emitDHCP(c, l int, kvs []optKV, order []byte) {
 		chf, lib.Hex(ch), lib.Hex(ipOrNone()), lib.Hex(ipOrNone()), xf, lib.Hex(xid), tf(rng.Bool()), optsTok(kvs), lib.Hex(order)}
 	obs, wire := dhcpOnce(a)
 	g.r.Case("dhcp4", append(a, lib.Hex(wire)), obs)
+	poolAdd("dhcp4", append(append([]string{}, a...), lib.Hex(wire)), obs)
 	g.r.Stat("class.dhcp4.nopts="+itoa(len(kvs)), 1)
 }
 
 func registerMore(r *lib.Run) {
 	r.Register("ip6", runIP6)
 	r.Register("ip6pl", runIP6Pl)
-	r.Register("frame6", runFrame6)
-	r.Register("arp", runARP)
-	r.Register("echo", runEcho)
-	r.Register("na", runNA)
-	r.Register("ns", runNS)
-	r.Register("dnsq", runDNSQ)
+	r.Register("frame6", rec("frame6", runFrame6))
+	r.Register("arp", rec("arp", runARP))
+	r.Register("echo", rec("echo", runEcho))
+	r.Register("na", rec("na", runNA))
+	r.Register("ns", rec("ns", runNS))
+	r.Register("dnsq", rec("dnsq", runDNSQ))
 	r.Register("dhcp4", runDHCP4)
 }
 
